@@ -157,7 +157,6 @@ func ParseControlFile(data []byte) (*ControlFile, error) {
 	// CheckPoint.redo: XLogRecPtr at offset 40
 	redoLSN := binary.LittleEndian.Uint64(data[40:48])
 	cf.RedoLSN = formatLSN(redoLSN)
-	cf.RedoWALFile = formatWALFilename(redoLSN, 1) // timeline 1 as default
 
 	// CheckPoint.ThisTimeLineID: uint32 at offset 48
 	cf.TimeLineID = binary.LittleEndian.Uint32(data[48:52])
@@ -267,6 +266,10 @@ func ParseControlFile(data []byte) (*ControlFile, error) {
 		cf.WALSegmentSize = 16 * 1024 * 1024
 	}
 
+	// WAL file holding the redo location, named from the checkpoint's timeline
+	// and the cluster's WAL segment size
+	cf.RedoWALFile = formatWALFilename(redoLSN, cf.TimeLineID, cf.WALSegmentSize)
+
 	// CRC is at the very end of the control file (last 4 bytes before padding)
 	// pg_control is typically 296 bytes but padded to 8KB
 	// The actual CRC position depends on the structure size
@@ -286,11 +289,16 @@ func formatLSN(lsn uint64) string {
 	return fmt.Sprintf("%X/%X", high, low)
 }
 
-// formatWALFilename formats the WAL filename for a given LSN
-func formatWALFilename(lsn uint64, timeline uint32) string {
-	segSize := uint64(16 * 1024 * 1024) // 16MB default
-	segNo := lsn / segSize
-	return fmt.Sprintf("%08X%08X%08X", timeline, uint32(segNo>>32), uint32(segNo))
+// formatWALFilename formats the WAL filename for a given LSN as PostgreSQL's
+// XLogFileName does: timeline, then the segment number split into the 4 GiB
+// "xlog id" and the segment within it.
+func formatWALFilename(lsn uint64, timeline uint32, segSize uint32) string {
+	if segSize == 0 {
+		segSize = 16 * 1024 * 1024 // 16MB default
+	}
+	segNo := lsn / uint64(segSize)
+	segsPerXLogID := uint64(0x100000000) / uint64(segSize)
+	return fmt.Sprintf("%08X%08X%08X", timeline, uint32(segNo/segsPerXLogID), uint32(segNo%segsPerXLogID))
 }
 
 // pgTimeToGoTime converts PostgreSQL pg_time_t to Go time
